@@ -64,6 +64,10 @@ var apiFiles = []treeFile{
 	{Name: "nested-use", Src: "@use(\"~nested\")@insert(\"content\")a layout that uses a layout@end"},
 	{Name: "dotcase", Src: "dot:{{ u.name }}|{{ u.tags }}"},
 	{Name: "poly", Src: "poly:{{ v.len() }}|{{ v }}|@if(v){{ v.len() }}@end"},
+	// a page that calls custom functions, and one with a component whose argument fails although the component never reads it
+	{Name: "usesfn", Src: "fn:{{ who.shout() }}|{{ items.count() }}"},
+	{Name: "bad-in-unused-arg", Src: "PARTIAL-OUTPUT-MARKER @component(\"~whoami\", {unused: items[0] / 0}) after"},
+	{Name: "bad-in-shadowed-arg", Src: "PARTIAL-OUTPUT-MARKER @component(\"~whoami\", {who: who.nope()}) after"},
 	// number literals that reach ++ / -- (a loaded program is evaluated many times; a literal is the same number every time)
 	{Name: "floatdec", Src: "dec:{{ p = 10.5 }}{{ p-- }}|{{ p }}|@for(x = 2.5; x > 0.0; x--){{ x }};@end|{{ n = 3 }}{{ n++ }}{{ n }}|{{ 1.5-- }}{{ 7++ }}"},
 	// one template, rendered with arrays of different lengths: the loop object of every pass belongs to this render
@@ -207,6 +211,7 @@ var fixedSigs = map[apiOp]string{
 	{"String", "static"}:         "OUT <p>Bo/3</p><i>Bo/3</i>",
 	{"String", "polyS"}:          "OUT poly:3|abc|3",
 	{"String", "floatdec"}:       "OUT dec:9.5|10.5|2.5;1.5;0.5;|43|0.58",
+	{"String", "usesfn"}:         "OUT fn:BO!|3, 0",
 	{"String", "lastA"}:          "OUT last:1a.^|0",
 	{"String", "lastB"}:          "OUT last:1a,^2b.|01",
 	{"String", "lastC"}:          "OUT last:1a,^2b,3c.|012",
@@ -218,6 +223,7 @@ var fixedSigs = map[apiOp]string{
 	{"String", "dotM"}:           "OUT dot:map|m",
 	{"String", "row1"}:           "OUT row:T1",
 	{"String", "row2"}:           "OUT row:N22",
+	{"EvalString", "customfn"}:   "OUT s:BO!|3, 2|X!",
 	{"EvalString", "row1"}:       "OUT s:T1",
 	{"EvalString", "row2"}:       "OUT s:N22",
 	{"String", "setvar"}:         "OUT set:3",
@@ -229,6 +235,11 @@ func (e *apiEnv) close() { os.Chdir("/") }
 
 func (e *apiEnv) reload() error {
 	textwire.VerifReset()
+	// "after templates are loaded and custom functions registered": two healthy functions and one whose result cannot be
+	// converted (its call fails; the calls of the others, before and after, are not its business)
+	textwire.RegisterStrFunc("shout", func(s string, args ...any) string { return strings.ToUpper(s) + "!" })
+	textwire.RegisterArrFunc("count", func(a []any, args ...any) []any { return []any{len(a), len(args)} })
+	textwire.RegisterArrFunc("chanfn", func(a []any, args ...any) []any { return []any{1, make(chan int)} })
 	tpl, err := textwire.NewTemplate(&config.Config{TemplateDir: e.cfg.Dir, TemplateExt: e.cfg.Ext,
 		ErrorPagePath: e.cfg.ErrorPage, DebugMode: e.cfg.Debug})
 	if err != nil {
@@ -310,6 +321,12 @@ func (e *apiEnv) run(o apiOp) (sig string, body string, ok bool) {
 		src := "s:{{ who }}{{ items }}" + fnMix
 		switch o.Page {
 		case "ok":
+		case "illegal": // an illegal character: this evaluation fails at parse time, and only this one
+			src = "s:{{ 1 ~ 2 }}"
+		case "customfn": // custom functions, healthy
+			src = "s:{{ who.shout() }}|{{ items.count(1, 2) }}|{{ \"x\".shout() }}"
+		case "chanfn": // a custom function whose result cannot be converted: this evaluation fails
+			src = "s:{{ who.shout() }}{{ items.chanfn() }}"
 		case "setvar":
 			src = "{{ total = \"s\" }}s:{{ total }}"
 		case "getvar":
@@ -705,7 +722,7 @@ func cmdRace(args []string) int {
 	w := bufio.NewWriter(f)
 	defer w.Flush()
 	allOps := []apiOp{{"String", "ok"}, {"String", "ok2"}, {"String", "ok2"}, {"String", "bare"}, {"String", "static"}, {"String", "polyS"}, {"String", "polyA"}, {"String", "polyI"},
-		{"String", "lastA"}, {"String", "lastC"}, {"String", "floatdec"},
+		{"String", "lastA"}, {"String", "lastC"}, {"String", "floatdec"}, {"EvalString", "illegal"}, {"EvalString", "customfn"}, {"EvalString", "chanfn"}, {"String", "usesfn"},
 		{"String", "bad"}, {"String", "missing"}, {"Response", "ok"}, {"Response", "bad"},
 		{"Response", "missing"}, {"EvalString", "ok"}, {"EvalString", "bad"}, {"EvalFile", "ok"}}
 	cfgs := []apiCfg{{"t", ".tw", "", false}, {"t", ".tw", "err", false}, {"t", ".tw", "", true}, {"t", ".tw", "err", true}}
@@ -721,12 +738,45 @@ func cmdRace(args []string) int {
 			return 2
 		}
 		solos := map[apiOp]string{}
-		for _, o := range allOps {
-			solos[o], _ = e.solo(o)
+		var mu sync.Mutex
+		hung := func(what string) int {
+			mu.Lock()
+			defer mu.Unlock()
+			for _, r := range []Result{
+				{ID: fmt.Sprintf("stress round %d cfg=%+v", rounds, cfg), Status: "viol", Kind: "hang", Msg: what, Tags: []string{"stress", "hang"}},
+				{ID: "stress-summary", Status: "ok", Stats: map[string]int{"rounds": rounds, "mismatches": bad + 1}}} {
+				b, _ := json.Marshal(r)
+				w.Write(b)
+				w.WriteByte('\n')
+			}
+			w.Flush()
+			return 0
+		}
+		// (the operations run alone first, one after the other: a call that never returns there is reported like one in a round)
+		soloDone := make(chan struct{})
+		var soloOp apiOp
+		go func() {
+			for _, o := range allOps {
+				mu.Lock()
+				soloOp = o
+				mu.Unlock()
+				sg, _ := e.solo(o)
+				mu.Lock()
+				solos[o] = sg
+				mu.Unlock()
+			}
+			close(soloDone)
+		}()
+		select {
+		case <-soloDone:
+		case <-time.After(60 * time.Second):
+			mu.Lock()
+			o := soloOp
+			mu.Unlock()
+			return hung(fmt.Sprintf("%v, issued alone after the operations before it in the list, did not return within 60 s", o))
 		}
 		e.reload()
 		var wg sync.WaitGroup
-		var mu sync.Mutex
 		for g := 0; g < G; g++ {
 			ops := make([]apiOp, 6)
 			for i := range ops {
@@ -767,7 +817,15 @@ func cmdRace(args []string) int {
 				}
 			}()
 		}
-		wg.Wait()
+		// calls that never return are the implementation's behaviour too (a lock that is never released): a round that
+		// has not finished after a minute - its calls take milliseconds - is reported, and the run ends there
+		finished := make(chan struct{})
+		go func() { wg.Wait(); close(finished) }()
+		select {
+		case <-finished:
+		case <-time.After(60 * time.Second):
+			return hung("concurrent calls of the rendering entry points did not return within 60 s (a round takes milliseconds)")
+		}
 		e.close()
 		rounds++
 	}
